@@ -48,23 +48,12 @@ def r1_pending_registered(r, facts):
         for de in des:
             reach |= f.reachable_blocks(de['edge'][1])
         r.require(bool(des) and any(p[0] in reach for p in pend), 'poll_inner/pending-sites', 'no Poll::Pending exit is reachable from the %s arm of poll_inner (found %d Pending sites in all)' % (arm, len(pend)), f.where())
+    # registrations in the operation state: the exits of set_waker / register_waker (always inlined by the normaliser) or
+    # a plain store, all under the state lock
     regsites = []
-    for loc, s in f.assigns():
-        if waker_field_store(s) and s['lhs']['ty'].startswith('std::option::Option<std::task::Waker>'):
-            e = eb.rvalue(s['rv'])
-            ok = e[0] == 'agg' and e[1].endswith('Option::Some')
-            if ok:
-                regsites.append(('store', loc))
-                r.require(loc in live, 'poll_inner/waker-store-unlocked', 'shared.waker is stored without the state lock', f.where(loc))
-    for loc, t in f.calls_to(SET_WAKER):
-        ap = access_path(eb.operand(t['args'][0]))
-        # the slot is the state's waker field: passed directly, or (when set_waker is a method of Shared) through the locked state
-        if ap and (ap[1].split('.')[-1] == 'waker' or 'Shared<' in (t['args'][0].get('ty') or '')):
-            regsites.append(('set_waker', loc))
-            r.require(loc in live, 'poll_inner/set_waker-unlocked', 'set_waker runs without the state lock', f.where(loc))
-        # the waker passed is the current context's
-        w = eb.operand(t['args'][1])
-        r.require(any(x[0] == 'call' and x[1] == 'std::task::Context::<\'a>::waker' for x in subexprs(w)) or 'waker' in str(w), 'poll_inner/set_waker-arg', 'set_waker is not given ctx.waker(): %s' % (w,), f.where(loc))
+    for k, loc in life.waker_registrations(f):
+        regsites.append((k, loc))
+        r.require(loc in live, 'poll_inner/waker-store-unlocked', 'shared.waker is registered (%s) without the state lock' % k, f.where(loc))
     for loc, t in f.calls_to(WAIT):
         regsites.append(('wait_for_submission', loc))
     for k, loc in regsites:
@@ -81,25 +70,10 @@ def r1_pending_registered(r, facts):
             e = eb.rvalue(s['rv'])
             if not (e[0] == 'agg' and e[1].endswith('Option::Some')):
                 r.bad('poll_inner/waker-cleared', 'shared.waker is overwritten with %s in poll_inner' % (e,), f.where(loc))
-    # set_waker: every return leaves *waker = Some(equivalent of w)
-    g = facts.fn(SET_WAKER)
-    ge = ExprBuilder(g)
-    ves = variant_edges(g, 'std::option::Option', 'None')
-    ves_s = variant_edges(g, 'std::option::Option', 'Some')
-    if r.require(len(ves) >= 1 and len(ves_s) >= 1, 'set_waker/match', 'match on the waker slot not found in set_waker', g.where()):
-        none_e = ves[0]['raw']
-        some_e = ves_s[0]['raw']
-        stores = [loc for loc, s in g.assigns() if s['lhs']['p'] and s['lhs']['l'] == 1 and s['rv']['k'] != 'discr']
-        rets = g.returns()
-        hit = g.forward_paths_hit([Loc(none_e[1], 0)], rets, blockers=stores)
-        r.require(hit is None, 'set_waker/none-arm', 'set_waker returns from the None arm without storing Some(w.clone())', g.where())
-        ww = bool_call_switches(g, 'std::task::Waker::will_wake')
-        r.require(len(ww) == 1, 'set_waker/will_wake', 'will_wake test not found in set_waker', g.where())
-        for c in ww:
-            cf = [loc for loc, t in g.calls() if (t.get('callee') or '').endswith('Clone::clone_from') or (t.get('callee') or '').endswith('Waker::clone_from')]
-            hit = g.forward_paths_hit([Loc(c['false'], 0)], rets, blockers=cf + stores)
-            r.require(hit is None, 'set_waker/stale-waker', 'set_waker keeps a waker that will not wake the current task (clone_from missing on the !will_wake arm)', g.where())
-        r.inst('set_waker arms', g.where())
+    # (what used to be checked inside set_waker — the None arm stores, the !will_wake arm clone_from's — is covered by the
+    # path condition above on the inlined code: an arm that registers nothing is a path to Pending without a registration)
+    r.require(sum(1 for k, _ in regsites if k == 'will_wake') >= 1 and sum(1 for k, _ in regsites if k == 'clone_from') >= 1, 'set_waker/will_wake',
+              'no registration keeps an already registered equivalent waker (will_wake) / replaces a stale one (clone_from)', f.where())
     # wait_for_submission pushes its parameter under the blocked_futures mutex
     w = facts.fn(WAIT)
     we = ExprBuilder(w)
